@@ -398,6 +398,15 @@ func GenStream(d D, o StreamOpts) (*fitmodel.Stream, *GenInfo) {
 	if hosted == nil {
 		hosted = prof.HostedMsgs(fit.FileType(ft))
 	}
+	if !o.ExtraFileIds {
+		var h2 []uint16
+		for _, m := range hosted {
+			if m != 0 {
+				h2 = append(h2, m)
+			}
+		}
+		hosted = h2
+	}
 	var unhosted []uint16
 	if o.Unhosted {
 		isHosted := map[uint16]bool{}
